@@ -261,7 +261,9 @@ def rule_target_eval(cx, mi):
         def __truediv__(self, other):
             return _Path(self._log, f"{self.path}/{other}")
 
-    PROG = cls["Program"](setup_body=[cls["ServoDecl"](name="sv", pin=9), cls["LCDDecl"](name="l0", cols=16, rows=2, interface="i2c", i2c_addr=39)], loop_body=[], target_port=None, global_decls=[], helpers=set(), functions=[], ultrasonic_measurements=set())
+    PROG = cls["Program"](setup_body=[cls["ServoDecl"](name="sv", pin=9), cls["LCDDecl"](name="l0", cols=16, rows=2, interface="i2c", i2c_addr=39)], loop_body=[], target_port="PORT_AS_SPELLED_IN_THE_SOURCE", global_decls=[], helpers=set(), functions=[], ultrasonic_measurements=set())
+    # (the parser records how the script spells its target() argument - a variable name, an escaped literal; the run-time value
+    # the caller passed is the port)
     SRC, CPP = "led = Led(13)  # the script text", "// emitted firmware text"
     n_bad = 0
     for upload, bad_pair, pio_missing, parse_fails, write_fails, build_fails in itertools.product((True, False), repeat=6):
